@@ -557,3 +557,106 @@ Proof.
   intros eqx lc f1 x f2 Hx Hn Ha. rewrite (fixed_all_hit eqx (fun _ => true) lc f1 x f2 Hx Hn Ha).
   rewrite filter_true_all. field. exact (qn_pos _ (active_nonempty _ _ Ha)).
 Qed.
+
+(* the scripted law of a timestep's selection is a distribution: total mass 1 *)
+Theorem select_dist_full_mass : forall W (tb : table W) (s : st W),
+  probs_ok (per_element tb) -> probs_ok (fixed_rate tb) -> mass (select_dist_full tb s) == 1.
+Proof.
+  intros W tb s Hpe Hfr. unfold mass. rewrite (select_dist_full_law tb s Hpe Hfr (fun _ => true)).
+  rewrite (prob_bind_const _ _ (fun _ => true) _ _ 1).
+  - fold (mass (selected_all (loci s) (per_element tb))). rewrite mass_selected_all. ring.
+  - intros a q _. rewrite (prob_bind_ret _ _ (fun _ => true)). apply mass_fixed_all.
+Qed.
+
+(* ------------------------------------------------------------------ the state after the step *)
+(* what the fixed-rate script hands out is consumed exactly: one variate per active event, one rank per success *)
+Lemma fixed_script_support : forall lc fevs, probs_ok fevs -> forall md q, In (md, q) (fixed_script lc fevs) ->
+  length (fst md) = count_fixed lc fevs /\
+  length (spec_fixed lc fevs (rands_of (fst md)) (snd md)) = length (snd md).
+Proof.
+  intros lc. induction fevs as [|x fevs IH]; intros Hok md q Hin.
+  - cbn [fixed_script ret In] in Hin. destruct Hin as [E|[]]. inversion E; subst. split; reflexivity.
+  - assert (Hx : 0 <= ev_p (snd x) /\ ev_p (snd x) < 2) by (apply Hok; left; reflexivity).
+    assert (Hok' : probs_ok fevs) by (intros y Hy; apply Hok; right; exact Hy).
+    destruct Hx as [H0 H2].
+    cbn [fixed_script] in Hin. unfold count_fixed. cbn [filter spec_fixed].
+    destruct (active lc x) eqn:Ha.
+    + apply In_bind in Hin. destruct Hin as (b & qa & qb & _ & Hin). destruct b.
+      * apply In_bind in Hin. destruct Hin as (k & qa' & qb' & Hk & Hin).
+        apply In_bind in Hin. destruct Hin as (md' & qa'' & qb'' & Hmd & Hin).
+        cbn [ret In] in Hin. destruct Hin as [E|[]]. inversion E; subst.
+        destruct (IH Hok' md' qa'' Hmd) as [L1 L2]. cbn [fst snd length rands_of map hd tl].
+        assert (E0 : Qle_bool 0 (ev_p (snd x)) = true) by (apply Qle_bool_iff; exact H0). rewrite E0.
+        fold (rands_of (fst md')). cbn [length]. unfold count_fixed in L1. rewrite L1, L2. split; reflexivity.
+      * apply In_bind in Hin. destruct Hin as (md' & qa'' & qb'' & Hmd & Hin).
+        cbn [ret In] in Hin. destruct Hin as [E|[]]. inversion E; subst.
+        destruct (IH Hok' md' qa'' Hmd) as [L1 L2]. cbn [fst snd length rands_of map hd tl].
+        assert (E2 : Qle_bool 2 (ev_p (snd x)) = false).
+        { destruct (Qle_bool 2 (ev_p (snd x))) eqn:E2'; [|reflexivity]. apply Qle_bool_iff in E2'.
+          exfalso. exact (Qlt_not_le _ _ H2 E2'). }
+        rewrite E2. fold (rands_of (fst md')). unfold count_fixed in L1. rewrite L1, L2. split; reflexivity.
+    + exact (IH Hok' md q Hin).
+Qed.
+
+Lemma prob_bind2_map : forall A B C D (P : D -> bool) (g : C -> D) (d1 : dist A) (d2 : dist B) (h : A -> B -> C),
+  prob P (bind d1 (fun a => bind d2 (fun b => ret (g (h a b))))) ==
+  prob (fun c => P (g c)) (bind d1 (fun a => bind d2 (fun b => ret (h a b)))).
+Proof.
+  intros A B C D P g d1 d2 h. induction d1 as [|[a q] d1 IH]; [reflexivity|].
+  rewrite !prob_bind_cons, IH.
+  rewrite (prob_bind_ret _ _ P (fun b => g (h a b))), (prob_bind_ret _ _ (fun c => P (g c)) (fun b => h a b)). reflexivity.
+Qed.
+
+Section LawStep.
+Context {W : Type}.
+Variable tb : table W.
+
+(* the law of (a view of) the state after the timestep's tranche, with the whole oracle scripted *)
+Definition step_dist_full {A} (t : Q) (s : st W) (view : st W -> A) : dist A :=
+  bind (patterns (probs_of (loci s) (per_element tb))) (fun m =>
+    bind (fixed_script (loci s) (fixed_rate tb)) (fun md =>
+      ret (view (snd (tranche_step tb t 0 (set_oracle (rands_of (m ++ fst md)) (lns s) (snd md) s)))))).
+
+(* the state in which the selected events fire: the oracle of the selection used up, everything else as it was *)
+Definition after_selection (s : st W) : st W := set_oracle [] (lns s) [] s.
+
+Lemma tranche_state : forall (s : st W) m qm md qd, probs_ok (fixed_rate tb) ->
+  In (m, qm) (patterns (probs_of (loci s) (per_element tb))) -> In (md, qd) (fixed_script (loci s) (fixed_rate tb)) ->
+  snd (tranche tb (set_oracle (rands_of (m ++ fst md)) (lns s) (snd md) s)) = after_selection s.
+Proof.
+  intros s m qm md qd Hfr Hm Hmd. rewrite tranche_spec. cbn [snd].
+  apply patterns_length in Hm. rewrite probs_of_length in Hm.
+  destruct (fixed_script_support (loci s) (fixed_rate tb) Hfr md qd Hmd) as [L1 L2].
+  unfold advance, after_selection, set_oracle.
+  cbn [clock nextid queue loci world ids out rands lns draws stuck].
+  assert (Er : length (rands_of (m ++ fst md)) = tranche_rands tb (loci s)).
+  { rewrite rands_of_length, app_length, Hm, L1. reflexivity. }
+  assert (Ed : tranche_draws tb (loci s) (rands_of (m ++ fst md)) (snd md) = length (snd md)).
+  { unfold tranche_draws. rewrite rands_of_app, skipn_app_exact by (rewrite rands_of_length; exact Hm). exact L2. }
+  rewrite Ed, <- Er, !skipn_all, !Nat.ltb_irrefl. cbn [skipn length Nat.ltb Nat.leb].
+  rewrite !orb_false_r. reflexivity.
+Qed.
+
+(* EVERY table: the state after the tranche of a timestep is distributed as the image of the product law of the
+   selection under the (deterministic) firing of the selected events, in order, with the membership re-check *)
+Theorem step_dist_full_law : forall A (t : Q) (s : st W) (view : st W -> A),
+  probs_ok (per_element tb) -> probs_ok (fixed_rate tb) ->
+  forall P, prob P (step_dist_full t s view) ==
+            prob (fun sel => P (view (snd (fire_tranche tb t sel 0 (after_selection s)))))
+                 (bind (selected_all (loci s) (per_element tb))
+                       (fun a => bind (fixed_all (loci s) (fixed_rate tb)) (fun b => ret (a ++ b)))).
+Proof.
+  intros A t s view Hpe Hfr P.
+  rewrite <- (select_dist_full_law tb s Hpe Hfr (fun sel => P (view (snd (fire_tranche tb t sel 0 (after_selection s)))))).
+  unfold step_dist_full, select_dist_full.
+  rewrite <- (prob_bind2_map _ _ _ _ P (fun sel => view (snd (fire_tranche tb t sel 0 (after_selection s))))
+               (patterns (probs_of (loci s) (per_element tb))) (fixed_script (loci s) (fixed_rate tb))
+               (fun m md => fst (tranche tb (set_oracle (rands_of (m ++ fst md)) (lns s) (snd md) s)))).
+  apply prob_bind_ext. intros m qm Hm. apply prob_bind_ext. intros md qd Hmd.
+  rewrite !prob_ret. unfold tranche_step.
+  pose proof (tranche_state s m qm md qd Hfr Hm Hmd) as Hs.
+  destruct (tranche tb (set_oracle (rands_of (m ++ fst md)) (lns s) (snd md) s)) as [evs s2].
+  cbn [fst snd] in *. rewrite Hs. reflexivity.
+Qed.
+
+End LawStep.
